@@ -49,7 +49,7 @@ static void op_case(int m, int n)
 }
 
 // accessor algebra from an arbitrary eigen-state: theta_i > 0 eigenvalues of the operator (descending), W = eigenvectors
-static void accessor_case(int m, int n, int ncomp, int nconv)
+static void accessor_case(int m, int n, int ncomp, int nconv, bool any_theta = false)
 {
     RMat A = symx::fresh_mat("A", m, n);
     const int d = std::min(m, n), ncv = ncomp + 1;
@@ -67,12 +67,38 @@ static void accessor_case(int m, int n, int ncomp, int nconv)
     e.m_ritz_vec = symx::fresh_mat("y", ncv, ncomp);
     e.m_ritz_conv.resize(ncomp);
     for (int i = 0; i < ncv; i++)
-        e.m_ritz_val[i] = sym::fresh("theta_" + std::to_string(i), sym::NONNEG | sym::NONZERO);  // positive: A has full rank on the converged part
+        e.m_ritz_val[i] = any_theta ? sym::fresh("theta_" + std::to_string(i))  // rank-deficient input: zero, or slightly negative through rounding
+                                    : sym::fresh("theta_" + std::to_string(i), sym::NONNEG | sym::NONZERO);  // positive: A has full rank on the converged part
     for (int i = 0; i < ncomp; i++)
         e.m_ritz_conv[i] = (i < nconv);
     e.m_fac.m_fac_V = symx::fresh_mat("V", d, ncv);
     svd.m_nconv = nconv;
     svd.m_evecs.resize(0, 0);
+    if (any_theta)
+    {
+        // arbitrary (also exactly rank-deficient) input: whatever eigenvalue the nested solver hands back - zero, or a tiny negative
+        // number - singular values and vectors must be finite and the values non-negative: no root of a negative number and no
+        // division by zero may be executed (definedness events are violations), and where theta > 0 the factor identity holds
+        RVec s = svd.singular_values();
+        for (int i = 0; i < s.size(); i++)
+        {
+            sym::check("s>=0[" + std::to_string(i) + "]", sym::le(Real(0), s[i]));
+            sym::check("theta>0 => s^2=theta[" + std::to_string(i) + "]", sym::le(e.m_ritz_val[i], Real(0)) || sym::eq(s[i] * s[i], e.m_ritz_val[i]));
+        }
+        RMat U = svd.matrix_U(ncomp), V = svd.matrix_V(ncomp);
+        sym::expect("shapes", U.cols() == nconv && V.cols() == nconv && U.rows() == m && V.rows() == n, "shape");
+        RMat W = e.eigenvectors();
+        for (int j = 0; j < nconv; j++)
+        {
+            RVec side = (m > n) ? RVec(A * W.col(j)) : RVec(A.transpose() * W.col(j));
+            const RMat& X = (m > n) ? U : V;
+            for (int i = 0; i < side.size(); i++)
+                sym::check("theta>0 => other-side vector * s = A w[" + std::to_string(j) + "](" + std::to_string(i) + ")",
+                           sym::le(e.m_ritz_val[j], Real(0)) || sym::eq(X(i, j) * s[j], side[i]));
+        }
+        sym::witness("end");
+        return;
+    }
     RVec s = svd.singular_values();
     sym::expect("singular_values().size() == nconv", s.size() == nconv, "size " + std::to_string(s.size()));
     for (int i = 0; i < s.size(); i++)
@@ -133,6 +159,12 @@ int main(int argc, char** argv)
         {
             int m = sh[0], n = sh[1];
             cases.push_back({"accessors/" + std::to_string(m) + "x" + std::to_string(n) + "/nconv" + std::to_string(nconv), [m, n, nconv]() { accessor_case(m, n, 2, nconv); }});
+        }
+    for (auto& sh : acc)
+        for (int nconv = 1; nconv <= 2; nconv++)
+        {
+            int m = sh[0], n = sh[1];
+            cases.push_back({"accessors-rank-deficient/" + std::to_string(m) + "x" + std::to_string(n) + "/nconv" + std::to_string(nconv), [m, n, nconv]() { accessor_case(m, n, 2, nconv, true); }});
         }
     return sym::run_main(argc, argv, cases);
 }
